@@ -1,7 +1,7 @@
 SPECIFICATION Spec
 CONSTANTS
   Kind = "ia"
-  Units = 5
+  Units = 4
   Grain = 2
   Heads = 1
   UncoCand = {2, 3}
